@@ -188,7 +188,7 @@ def check_single_evaluation(chk, rule, header, cases, cfg="default", prelude="")
     a function evaluates its arguments once by construction, a macro that mentions its parameter twice does not.
     cases: [(label, C text of a function named w_... that takes `T (*next)(void)` and uses next() as the argument)]"""
     for label, text in cases:
-        src = "#include <%s>\n%s\n%s\n" % (header, prelude, text)
+        src = "#include <assert.h>\n#include <stddef.h>\n#include <stdbool.h>\n#include <stdint.h>\n#include <%s>\n%s\n%s\n" % (header, prelude, text)
         try:
             m = build.compile_text("once_%s.c" % "".join(ch if ch.isalnum() else "_" for ch in label), src, cfg, inline_except=())
         except AnalysisError as e:
